@@ -21,6 +21,7 @@ import Driver.Journal
 import Driver.Replay
 import Driver.EventLog
 import Driver.Lifecycle
+import Driver.HandlerStatus
 
 def main (args : List String) : IO UInt32 := do
   let stdin ← IO.getStdin
@@ -47,4 +48,5 @@ def main (args : List String) : IO UInt32 := do
   | ["replay"] => Drv.loop stdin Drv.Replay.step {}; return 0
   | ["eventlog"] => Drv.loop stdin Drv.EventLog.step {}; return 0
   | ["lifecycle"] => Drv.loop stdin Drv.Lifecycle.step {}; return 0
+  | ["handlerstatus"] => Drv.loop stdin Drv.HandlerStatus.step {}; return 0
   | _ => IO.eprintln "usage: wfdriver <model>"; return 2
